@@ -102,6 +102,7 @@ class SimFS:
         self.open_handles = 0
         self.faults = [dict(f, _n=0, _done=False) for f in (faults or [])]
         self.fired_faults = []
+        self.fired_by_thread = {}
 
     # ---- tree
     def add(self, path, data):
@@ -122,7 +123,11 @@ class SimFS:
         self.history.append((self.seq,) + ev)
 
     def fired(self, f):
-        self.fired_faults.append({k: v for k, v in f.items() if not k.startswith("_")})
+        import _thread
+
+        rec = {k: v for k, v in f.items() if not k.startswith("_")}
+        self.fired_by_thread.setdefault(_thread.get_ident(), []).append(rec)
+        self.fired_faults.append(rec)
 
     def _match_fault(self, op, cls, path):
         for f in self.faults:
